@@ -240,7 +240,7 @@ def run(model: Model, rep: Report) -> None:
     oks = all(i is not None for i in ids) and all(ids[k] in dom[ids[k + 1]] for k in range(len(ids) - 1))  # type: ignore[index]
     r6.check(oks, site(dk, br), dk.qualname, "seek to the keyword, consume its line (CR LF or LF), read Length bytes from there", why=f"sequence {seq} not found in dominance order: {ids}")
     src = " ".join(unparse(s) for s in br.body)
-    r6.check("objlen = int_value(dic['Length'])" in src and "dic = dict_value(dic)" in src, site(dk, br), dk.qualname, "the length is int_value(dic['Length']) (indirect lengths resolve)", why="Length read changed")
+    r6.check(("objlen = int_value(dic['Length'])" in src or "objlen = max(0, int_value(dic['Length']))" in src) and "dic = dict_value(dic)" in src, site(dk, br), dk.qualname, "the length is int_value(dic['Length']) (indirect lengths resolve)", why="Length read changed")
     r6.check("stream = PDFStream(dic, bytes(data), self.doc.decipher)" in src, site(dk, br), dk.qualname, "the stream object holds exactly the bytes read (and the document's decipher)", why="construction changed")
     # every write to the payload after it was read is an append guarded by the fallback flag
     from .tokenizer import _guard_tests, refill_before_read_rule
